@@ -131,9 +131,14 @@ def run(tier, seed):
     import djsetup
     djsetup.setup()
     djsetup.patch_ids()
+    # sub-check first: the mechanism-level model M of the renderer (Core/Mech.v, Props/C01M.v, harness/c01m.py): implementation = M on
+    # every generated program, M = S where required, M refines S proved for the isolated fragment.  Its violations are C01's.
+    import c01m
+    rc_m = c01m.run(tier, seed, report_as="C01")
     chk = C.Check("C01", tier, seed)
+    chk.add_sub("C01M")
     chk.prove()
-    n = 6000 if tier == "thorough" else 1000
+    n = 6000 if tier == "thorough" else 700
     check_programs(chk, corpus_programs(), "corpus")
     for mode in ("isolated", "django"):
         check_programs(chk, list(gen_programs(chk, n, mode, seed)), mode[:3])
@@ -145,7 +150,7 @@ def run(tier, seed):
         "surface a different one first and only 'raises' is compared",
         "custom SlotFunc objects are opaque constant functions; get_context_data is a total function of the kwargs",
     ]
-    return chk.finish(
+    rc = chk.finish(
         rule="seeded grammar-directed programs (1-4 components, nesting depth <= 3, slots named/default/required/repeated/nested in slot defaults/in loops/"
              "inside fills; tags with no body / implicit body / named / conditional / with-bound / looped dynamically-named fills; unknown and duplicate fills; "
              "unregistered components), %d per context behaviour, small ones first; each in the plain, dynamic and (where the page is one component with static "
@@ -155,6 +160,7 @@ def run(tier, seed):
                     "implementation's output; variants compared with each other.",
         extra_trusted=["modelled, not verified: Django's template engine for text/variables/if/for/with; deferred rendering is abstracted to in-place rendering "
                        "(its order-composition is C14's PostRender theorem)"])
+    return 1 if (rc or rc_m) else 0
 
 
 def replay(path):
